@@ -75,6 +75,11 @@ def scenarios(tier, seed):
 
 def run(tier, seed):
     rep = Report("C11", tier, seed, level="other")
+    rep.add_mc("MC_Walk", tlc.model_check("MC_Walk", "MC_Walk.cfg" if tier == "thorough" else "MC_Walk_quick.cfg", workers=2),
+               note="exact expectations over ALL assignments of +-1 draws to 2 particles x 3 directions x NS steps: zero mean, variance NS step^2 per "
+                    "direction, no covariance between directions or particles, for both accepted block assignments")
+    rep.add_mc("MC_Walk_shared(control)", tlc.expect_refuted("MC_Walk", "MC_Walk_shared.cfg", "IndepXY"),
+               note="control: both horizontal directions reading the same block of draws is refuted (covariance)")
     scs = scenarios(tier, seed)
     traces = pmap("harness.trackdrv", "track_trace", scs)
     rep.add_tv("tracker-diffusion", "TrackTrace", scs, traces, tlc.validate_traces("TrackTrace", traces), family=FAMILY)
